@@ -15,6 +15,7 @@ import NiftyVerif.Lemmas.LinOps
 import NiftyVerif.Lemmas.LinOpsWf
 import NiftyVerif.Lemmas.Transpose
 import NiftyVerif.Lemmas.LinOpsMore
+import NiftyVerif.Lemmas.HarmonicCoo
 import NiftyVerif.Lemmas.CQ
 
 namespace NiftyVerif.C02
@@ -674,6 +675,19 @@ theorem einsum_adjoint_identity {cj : K → K} (hc : IsConj cj) (letters : List 
     inner cj (einsum letters sz ops xs os).rows y (apply (einsum letters sz ops xs os) x)
       = inner cj (einsum letters sz ops xs os).cols (applyAdj cj (einsum letters sz ops xs os) y) x :=
   Coo.coo_adjoint hc _ (einsum_wf letters sz ops xs os hxs hos) x y
+
+/-! ### harmonic operators through C09's model -/
+
+/-- FFTOperator / HartleyOperator on one sub-space of a product domain, as COO operators (C09's `dftCoo` /
+    `hartleyCoo`, embedded with `onAxis`): well-formed, hence `⟨y, A x⟩ = ⟨Aᴴ y, x⟩` with `Aᴴ` the conjugate
+    transpose — for every axis length, every spectator sizes `pre`, `post`, every root `w` -/
+theorem harmonic_coo_adjoint {cj : K → K} (hc : IsConj cj) (pre post n : Nat) (A : Nat → Nat → K) (x y : Nat → K) :
+    (onAxis pre post (Harmonic.matCoo n A)).wf = true ∧
+    inner cj (onAxis pre post (Harmonic.matCoo n A)).rows y (apply (onAxis pre post (Harmonic.matCoo n A)) x)
+      = inner cj (onAxis pre post (Harmonic.matCoo n A)).cols
+          (applyAdj cj (onAxis pre post (Harmonic.matCoo n A)) y) x :=
+  ⟨onAxis_wf _ _ _ (Harmonic.matCoo_wf n A),
+   Coo.coo_adjoint hc _ (onAxis_wf _ _ _ (Harmonic.matCoo_wf n A)) x y⟩
 
 /-! ## Part 3 — the adjoint identity for each modelled operator class, every configuration
     (`coo_adjoint` + well-formedness of the class model, Lemmas/LinOpsWf.lean) -/
